@@ -1170,6 +1170,26 @@ def compare(interp, op, a, b):
         if r is MISSING:
             return MISSING
         return V.not_(r) if isinstance(op, ast.NotIn) else r
+    if isinstance(op, (ast.Lt, ast.LtE, ast.Gt, ast.GtE)) and (isinstance(a, V.SymSet) or isinstance(b, V.SymSet)):
+        # set inclusion: a <= b  <=>  every member of a is in b;  a < b  <=>  a <= b and a != b   (Python set semantics)
+        sa, sb = as_set_or_none(interp, a), as_set_or_none(interp, b)
+        if sa is None or sb is None or isinstance(a, (V.SymSeq, V.SymList)) or isinstance(b, (V.SymSeq, V.SymList)):
+            return MISSING
+        sa, sb = lift_set(interp, sa), lift_set(interp, sb)
+        if isinstance(op, (ast.Gt, ast.GtE)):
+            sa, sb = sb, sa
+
+        def incl(x, y, nm):
+            t = z3.Const("t!q", TenS)
+            r = cx.fresh_bool(nm)
+            w = cx.fresh_const(nm + "w", TenS)
+            cx.assume(z3.Implies(r, V.forall([t], z3.Implies(x.contains(t), y.contains(t)))), tag="set-inclusion")
+            cx.assume(z3.Implies(z3.Not(r), z3.And(x.contains(w), z3.Not(y.contains(w)))), tag="set-inclusion")
+            return r
+        le = incl(sa, sb, "subset")
+        if isinstance(op, (ast.LtE, ast.GtE)):
+            return le
+        return z3.And(le, z3.Not(incl(sb, sa, "supset")))
     if _num(a) and _num(b):
         if isinstance(a, (int, float)) and isinstance(b, (int, float)):
             return {ast.Lt: a < b, ast.LtE: a <= b, ast.Gt: a > b, ast.GtE: a >= b}[type(op)]
